@@ -57,13 +57,18 @@ def same_dtype_layouts(spec, rng, want=2, limit=40):
 def cases(ctx):
     rng = ctx.rng('main')
     quick = ctx.tier == 'quick'
-    for i in range(500 if quick else 8000):
-        spec = gen.rand_frame_spec(rng, 4, 6, dtypes=['int64', 'float64', 'bool', 'str', 'object'], min_cols=1, run_bias=0.6)
+    for i in range(1500 if quick else 20000):
+        spec = gen.rand_frame_spec(rng, 4, 7, dtypes=['int64', 'float64', 'bool', 'str', 'object'], min_cols=1, run_bias=0.6)
         n, m = spec['rows'], len(spec['cols'])
         op = rng.choice(TB_OPS)
         yield {'k': 'tb', 'spec': spec, 'op': op,
                'rk': gen.rand_key(rng, n, kinds=('sl', 'list', 'mask', 'all', 'int')),
-               'ck': gen.rand_key(rng, m, kinds=('int', 'sl', 'list', 'mask', 'all'), unique_list=True)}
+               # keys with repeated positions are legal for the order-insensitive generators (drop / astype / ufunc)
+               'ck': gen.rand_key(rng, m, kinds=('int', 'sl', 'list', 'list', 'mask', 'all'),
+                                  unique_list=not (op in ('drop_c', 'drop_rc', 'slices0', 'astype', 'ufunc') and rng.random() < 0.3)),
+               # astype target: the dtype some column already has (exercises the `dtype == b.dtype` skip inside a
+               # block with further targets) or object
+               'ac': rng.choice([None] + list(range(m)))}
     names = ops.catalogue_names()
     for i in range(900 if quick else 20000):
         spec = gen.rand_frame_spec(rng, 4, 5, dtypes=rng.choice([gen.DTYPES_BASIC, ['int64', 'float64'], ['float64', 'object', 'str'], gen.DTYPES_ALL]),
@@ -109,7 +114,9 @@ def model_lines(c):
     if op == 'slices1':
         return [f'tb.slices {w} {ck} 1']
     if op == 'astype':
-        return [f'tb.astype {w} {ck} O8']
+        ac = c.get('ac')
+        dt = 'O8' if ac is None else gen.spec_dtypes(spec)[ac]
+        return [f'tb.astype {w} {ck} {dt}']
     if op == 'ufunc':
         return [f'tb.ufunc {w} {ck}']
     if op == 'index':
@@ -150,7 +157,9 @@ def eval_tb(ctx, c, outs):
         elif op in ('slices0', 'slices1'):
             real = list(tb._key_to_block_slices(pck, retain_key_order=op == 'slices1'))
         elif op == 'astype':
-            real = real_tb_view(sf.TypeBlocks.from_blocks(tb._astype_blocks(pck, np.dtype(object))))
+            ac = c.get('ac')
+            target = np.dtype(object) if ac is None else tb._extract_array(column_key=ac).dtype
+            real = real_tb_view(sf.TypeBlocks.from_blocks(tb._astype_blocks(pck, target)))
         elif op == 'ufunc':
             real = real_tb_view(sf.TypeBlocks.from_blocks(tb._ufunc_blocks(pck, lambda a: a)))
         elif op == 'index':
@@ -173,7 +182,8 @@ def eval_tb(ctx, c, outs):
     else:
         mod = answer_tb(out, it)
         if isinstance(real, tuple) and real[0] == 'err':
-            ok = isinstance(mod, tuple)
+            # a failing NumPy conversion inside astype (e.g. 'xyz' -> float) is outside the structural model
+            ok = isinstance(mod, tuple) or op == 'astype'
             ctx.count('tb_error_cases')
         elif real == ('elem',):
             ok = True
